@@ -541,6 +541,61 @@ fn gen_concurrent_keys() -> BoxedStrategy<Value> {
     (2usize..=12, 4usize..=24, 5usize..=40, 0u64..5).prop_map(|(t, per, rounds, family)| json!({"threads": t, "per": per, "rounds": rounds, "family": family})).boxed()
 }
 
+/// Working-set sweep: W hot keys touched twice, one new key, the hot set again - for every W up to 300.  Whatever capacity a
+/// cache or pool has, some W sits exactly at its boundary, with the newest entry also the least recently used one.
+pub fn sweep_calls(w: usize, kind: u64) -> Vec<(Value, Value)> {
+    let item = |k: usize| -> (Value, Value) {
+        match kind % 6 {
+            0 => (json!({"-": [format!("{}", 1000 + k), 0]}), Value::Null),                          // Number-style conversion of a distinct string
+            1 => (json!({"+": [format!("{}px", 1000 + k)]}), Value::Null),                           // parseFloat-style
+            2 => (json!({"var": format!("k{}.v", k)}), json!({format!("k{}", k): {"v": k}})),        // distinct dotted paths
+            3 => (json!({"<": [format!(" {} ", k), k + 1]}), Value::Null),                           // comparison with conversion
+            4 => (json!({"cat": [{"var": "s"}, k]}), json!({"s": format!("s{}", k)})),               // distinct rules
+            _ => (json!({"==": [{"var": ""}, format!("{}", k)]}), json!(k)),                          // distinct data against distinct strings
+        }
+    };
+    let mut calls = vec![];
+    for k in 0..w {
+        calls.push(item(k));
+    }
+    for k in 0..w {
+        calls.push(item(k));
+    }
+    calls.push(item(w));
+    for k in 0..=w {
+        calls.push(item(k));
+    }
+    calls.push(item(w + 1));
+    for k in (0..=w + 1).rev() {
+        calls.push(item(k));
+    }
+    calls
+}
+
+fn check_sweep(case: &Value, obs: &mut Obs) -> Result<(), String> {
+    let w = case["w"].as_u64().unwrap_or(1) as usize;
+    let kind = case["kind"].as_u64().unwrap_or(0);
+    for (i, (rule, data)) in sweep_calls(w, kind).iter().enumerate() {
+        let got = call(rule, data, obs, "working-set sweep")?;
+        against_model(rule, data, &got, &format!("call {} of a working-set sweep with {} hot keys (kind {})", i, w, kind))?;
+    }
+    obs.nt(&format!("sweep kind {} W {}", kind, if w < 32 { "<32" } else if w < 64 { "32-63" } else if w < 128 { "64-127" } else if w < 256 { "128-255" } else { "256+" }));
+    Ok(())
+}
+
+fn fixed_sweeps() -> Vec<Value> {
+    let mut out = vec![];
+    for kind in 0..6u64 {
+        for w in 1..=300usize {
+            out.push(json!({"w": w, "kind": kind}));
+        }
+        for w in [511usize, 512, 513, 1023, 1024, 1025] {
+            out.push(json!({"w": w, "kind": kind}));
+        }
+    }
+    out
+}
+
 /// One long history over many *distinct* rules and data (counters expanded from templates), each evaluated, then
 /// revisited in another order: state that only goes wrong at a capacity boundary, on an eviction or collision path,
 /// or after many calls has thousands of distinct keys to trip over.
@@ -713,6 +768,18 @@ pub fn property() -> Property {
                 check: check_fresh_values,
                 quick: 6_000,
                 thorough: 300_000,
+                small_stack: false,
+            },
+            Sub {
+                name: "working_set_sweep",
+                about: "for every W in 1..300 (and 511-513, 1023-1025) and six kinds of keyed work (Number-style and parseFloat-style conversion of distinct strings, distinct dotted paths, comparisons, distinct rules, distinct data): W hot items touched twice, one new item, the hot set again, another new item, everything in reverse - every call against the model; whatever capacity some cache has, one W sits exactly on its boundary.",
+                nontrivial: "every case.",
+                strategy: None,
+                fixed: Some(fixed_sweeps),
+                fixed_exhaustive: false,
+                check: check_sweep,
+                quick: 0,
+                thorough: 0,
                 small_stack: false,
             },
             Sub {
